@@ -57,3 +57,22 @@ pub fn narrow<T: MomTropFloat>(x: &T) -> T {
 pub fn chatty(x: f64) {
     println!("x = {x}");
 }
+
+/// planted: every kind of panicking construct the C12-e scan looks for (index, unwrap, explicit assertion on the argument)
+pub fn panicky(a: f64, table: &[f64]) -> f64 {
+    assert!(a > 1.0, "explicit panic reachable for a positive argument");
+    let k = a as usize;
+    let first = table.iter().copied().find(|v| *v > a).unwrap();
+    table[k] + first
+}
+
+/// planted: a second Err on a build path (C05-e) and a panic decided by a coordinate's value (C06-f)
+pub fn value_guarded(xs: &[f64]) -> Result<f64, String> {
+    if xs.iter().all(|x| *x > 0.0) {
+        panic!("a coordinate is zero");
+    }
+    if xs.len() > 3 {
+        return Err("too long".to_string());
+    }
+    Ok(xs[0])
+}
